@@ -381,6 +381,7 @@ func (h *H) Feed(i int, n int) int {
 	}
 	b := h.Blobs[i]
 	written := 0
+	wasComplete := d.Complete()
 	for piece := 0; piece < b.NumPieces() && written < n; piece++ {
 		if d.Stat().Bitfield().Test(uint(piece)) {
 			continue
@@ -401,7 +402,7 @@ func (h *H) Feed(i int, n int) int {
 		// so that later steps do not race with a piece write that is still in flight
 		WaitFor(2*time.Second, func() bool { return d.Complete() })
 	}
-	if d.Complete() {
+	if d.Complete() && !wasComplete {
 		// the completion notice is sent from its own goroutine: wait until it is pending
 		ih := b.MetaInfo.InfoHash()
 		WaitFor(2*time.Second, func() bool {
@@ -488,8 +489,19 @@ func (h *H) ApplyID(e scheduler.VerifPending) {
 // StartRemove calls Scheduler.RemoveTorrent(blob i) on its own goroutine and waits until it is pending.
 func (h *H) StartRemove(i int) {
 	before := len(h.VH.Pending())
-	go h.Sched.RemoveTorrent(h.Blobs[i].Digest)
-	WaitFor(2*time.Second, func() bool { return len(h.VH.Pending()) > before || h.VH.Stopped() })
+	returned := make(chan struct{})
+	go func() {
+		h.Sched.RemoveTorrent(h.Blobs[i].Digest)
+		close(returned)
+	}()
+	WaitFor(2*time.Second, func() bool {
+		select {
+		case <-returned:
+			return true
+		default:
+		}
+		return len(h.VH.Pending()) > before || h.VH.Stopped()
+	})
 }
 
 // StartStop calls Scheduler.Stop on its own goroutine and waits until the shutdown event is pending.
